@@ -179,7 +179,10 @@ def run(tier):
                 need.add(f)
         have_all = {f for f, v in g.get("flag_all", set()) if v == 0}
         have_any = {f for f, v in g.get("flag_any", set())}
-        allowed_extra = {"Avr8l"} if r["op"] in ("Lds", "Sts") else set()
+        # Avr8l changes what may be written, not whether the instruction exists: the one-word lds/sts, and r16..r31 as the only
+        # registers (which registers exactly is C04's domain-rc, that nothing else changes is C01's bit comparison on every path)
+        low_regs = any(o["kind"] == "reg" and min(o["legal"]) < 16 for o in r["operands"])
+        allowed_extra = {"Avr8l"} if r["op"] in ("Lds", "Sts") or low_regs else set()
         if need:
             nforms += 1
             missing = sorted(need - have_all)
